@@ -169,6 +169,10 @@ class LiveClosureMonitor(Monitor):
             # previous close, standing in for the closure worker (poll_market_closure)
             if self.WORKER_MARK in market.orders_cleared or self.WORKER_MARK in market.market_cleared:
                 self.violate(self.P, "C20.flags", "cleared-flags-not-reset-by-repeated-close", orders_cleared=list(market.orders_cleared), market_cleared=list(market.market_cleared))
+        if market is not None and mid not in self.closed_at and (self.WORKER_MARK in market.orders_cleared or self.WORKER_MARK in market.market_cleared):
+            # first closure of this market in the session: nobody has cleared it yet (the stand-in only marks the market a
+            # close event was processed for), so its flags must be empty - they are per-market state
+            self.violate(self.P, "C20.flags", "cleared-flags-set-on-a-market-never-cleared", market=mid, orders_cleared=list(market.orders_cleared), market_cleared=list(market.market_cleared))
         if recorder:
             self.res.probes["c20.live.recorder_mode_close"] += 1
             self.res.nontrivial = True
